@@ -5,7 +5,12 @@ use crate::{
 };
 use lazy_static::lazy_static;
 use std::collections::HashMap;
+#[cfg(not(flea1lt_sentinel_rust_verif))]
 use std::sync::{Arc, RwLock};
+#[cfg(flea1lt_sentinel_rust_verif)]
+use std::sync::{Arc};
+#[cfg(flea1lt_sentinel_rust_verif)]
+use crate::verif::sync::{RwLock};
 
 type ResourceNodeMap = HashMap<String, Arc<ResourceNode>>;
 
